@@ -198,6 +198,21 @@ def env_for(eng, kind, tb, lb, ktn):
         e = J.Environment(loader=J.DictLoader(_W["loader"]), trim_blocks=bool(tb), lstrip_blocks=bool(lb), keep_trailing_newline=bool(ktn),
                           undefined=J.StrictUndefined, autoescape=(kind == "rawae"), **more)
     elif eng == "b":
+        if not _W.get("decoy"):
+            # an EARLIER environment of the same language whose queries answer the other way, used once: what a use query yields belongs to the
+            # environment it is asked in, not to the process
+            _W["decoy"] = True
+            try:
+                d = _W["builder"](B.DictLoader(_W["loader"]), _W["lctx"]).create()
+                try:
+                    dns = d.target_language_uses_queries
+                except AttributeError:
+                    dns = d.globals["uses_queries"]
+                for k, v in _queries().items():
+                    setattr(dns, k, (lambda v=v: not v()))
+                d.from_string("".join('{%% ifuses "%s" %%}x{%% endifuses %%}{%% ifnuses "%s" %%}y{%% endifnuses %%}' % (k, k) for k in _queries())).render()
+            except Exception:  # pylint: disable=broad-except
+                pass
         e = _W["builder"](B.DictLoader(_W["loader"]), _W["lctx"]).set_trim_blocks(bool(tb)).set_lstrip_blocks(bool(lb)).create()
         try:
             ns = e.target_language_uses_queries
@@ -722,9 +737,13 @@ def note_scope(ctx):
 
 def selftests(ctx, keep):
     tests = []
-    for k in ("same", "marker", "assert", "ifuses", "filter"):
-        if k not in keep:
-            raise MachineryFailure("no accepted %s record available for the binding self-test" % k)
+    missing = [k for k in ("same", "marker", "assert", "ifuses", "filter") if k not in keep]
+    if missing:
+        if not ctx.violations:
+            raise MachineryFailure("no accepted %s record available for the binding self-test" % "/".join(missing))
+        # the self-tests corrupt ACCEPTED records of the tree under test: a tree on which a whole kind is rejected is judged by its verdicts
+        ctx.not_exercised("binding self-tests skipped: no accepted %s record on this tree (it violates the property itself, see the verdicts)" % "/".join(missing))
+        return
     r = json.loads(keep["same"][0])
     tgt = next(x for x in r["runs"] if x["b"]["ok"])
     tgt["b"] = {"ok": 1, "out": tgt["b"]["out"] + [120]}
